@@ -528,6 +528,41 @@ func EncodeToIEDataType(dataType IEDataType, val interface{}) ([]byte, error) {
 	return nil, fmt.Errorf("API supports only valid information elements with datatypes given in RFC7011")
 }
 
+// validateValueForEncoding returns an error if the value held by the element cannot be
+// encoded faithfully for its information element: wrong address family, wrong length for a
+// fixed-length element, or a variable-length value that is too long.
+func validateValueForEncoding(element InfoElementWithValue) error {
+	switch element.GetDataType() {
+	case OctetArray:
+		v := element.GetOctetArrayValue()
+		ieLen := element.GetInfoElement().Len
+		if ieLen < VariableLength {
+			if len(v) != int(ieLen) {
+				return fmt.Errorf("invalid value for fixed-length octet array %s: length is %d, expected %d", element.GetName(), len(v), ieLen)
+			}
+		} else if len(v) > math.MaxUint16 {
+			return fmt.Errorf("provided OctetArray value is too long and cannot be encoded: len=%d, maxlen=%d", len(v), math.MaxUint16)
+		}
+	case String:
+		if v := element.GetStringValue(); len(v) > math.MaxUint16 {
+			return fmt.Errorf("provided String value is too long and cannot be encoded: len=%d, maxlen=%d", len(v), math.MaxUint16)
+		}
+	case MacAddress:
+		if v := element.GetMacAddressValue(); len(v) != 6 {
+			return fmt.Errorf("provided MAC address %v for %s is not 6 bytes long", v, element.GetName())
+		}
+	case Ipv4Address:
+		if v := element.GetIPAddressValue(); v.To4() == nil {
+			return fmt.Errorf("provided IP %v does not belong to IPv4 address family", v)
+		}
+	case Ipv6Address:
+		if v := element.GetIPAddressValue(); v.To16() == nil {
+			return fmt.Errorf("provided IPv6 address %v is not of correct length", v)
+		}
+	}
+	return nil
+}
+
 // encodeInfoElementValueToBuff is to encode data to specific type to the buff
 func encodeInfoElementValueToBuff(element InfoElementWithValue, buffer []byte, index int) error {
 	if index+element.GetLength() > len(buffer) {
